@@ -65,6 +65,8 @@ def const_str(e):
 
 
 def stmt_text(node):
+    if hasattr(node, "text"):
+        return node.text
     return dump(node.ast).split("\n")[0][:90] if node.ast is not None else node.kind
 
 
